@@ -13,7 +13,23 @@ RULE = ("square systems n=1..8: dense, zero/tiny leading pivots at several steps
 TRUSTED = ["Coq 8.16.1 kernel + vm_compute", "Rust executor /verif/harness (Rat = i128 rationals)", "python driver (generators, Fraction residual oracle, comparators)",
            "hand-written Gallina model coq/Model/Solve.v tied to src/matrix/solve.rs by differential execution"]
 ASSUMPTIONS = ["Rust semantics of Vec/usize as modelled", "float backward stability is searched (1e-11 normwise), not proved"]
-UNPROVED = ["normwise backward error of the f64/Complex instantiation (covered by tie + search)"]
+UNPROVED = ["normwise backward error of the f64/Complex instantiation (covered by tie + search)",
+            "solve_lu_sound / solvers_agree are assembled from package c02's LU theorems (this file's theorems are about solve_basic)"]
+
+MANIFEST = dict(
+    text=("Theorems over an arbitrary field (all sizes n >= 1, all entries) about the Gallina model of src/matrix/solve.rs, which keeps the flat "
+          "row-major buffer, the loop bounds, the pivot rule (initial index 0, strict <) and every panic of the code: "
+          "solve_basic_sound (solve_basic M b = Ok x -> |x| = n and M x = b; row operations preserve the solution set, back substitution solves "
+          "the triangular system, a zero pivot is a DivZero panic), solutions_unique (left inverse => at most one solution), "
+          "solve_basic_complete (magnitude laws + left inverse => solve_basic returns Ok), corollaries at Qc, and a 3x3 rational example "
+          "with a zero leading entry and two row exchanges evaluated by vm_compute.  The model is run against the implementation on every check "
+          "(Rat vs Qc exact, f64/Complex<f64> vs primitive floats; both solvers; zero/tiny pivots, permutation-like, triangular, singular and "
+          "mis-shaped systems) and an independent Fraction/float residual oracle searches for a failing input; the measured distribution of "
+          "row exchanges per system is written to the evidence."),
+    note=("Float backward stability (1e-11 normwise) is searched, not proved.  The LU half of the property (solve_lu_sound, solvers_agree) "
+          "rests on package c02's theorems; here solve_lu is tied and searched."),
+    technique="Coq proof over an abstract field + model/implementation differential execution (vm_compute vs Rust executor) + exact residual oracle",
+    design="7 (C01)")
 
 def rval(rng):
     k = rng.below(6)
@@ -55,6 +71,46 @@ def gen_matrix(rng, n, fam, elt):
         for k in range(n): A[k*n+k] = -one * rng.range(5, 9)
     return A
 
+def pivot_trace(A, n):
+    """independent exact re-enactment of the pivot rule of solve_basic (index starts at 0, strict <):
+    returns (number of steps k with pivot != k, steps with an exchange, fell back to row 0 on a zero sub-column)"""
+    M = [[Fraction(A[i*n+j]) for j in range(n)] for i in range(n)]
+    steps = []; fallback = False
+    for k in range(n - 1):
+        p, mx = 0, Fraction(0)
+        for i in range(k, n):
+            if mx < abs(M[i][k]): mx, p = abs(M[i][k]), i
+        if p != k:
+            steps.append(k)
+            if p < k: fallback = True
+        M[p], M[k] = M[k], M[p]
+        if M[k][k] == 0: return len(steps), steps, fallback
+        for i in range(k + 1, n):
+            e = M[i][k] / M[k][k]
+            for j in range(k, n): M[i][j] -= e * M[k][j]
+    return len(steps), steps, fallback
+
+PIVOT_STATS = {"exchanges_per_system": {}, "exchange_at_step": {}, "systems_with_exchange_after_step0": 0,
+               "zero_subcolumn_row0_fallback": 0, "singular_systems": 0, "systems": 0}
+
+def record_pivots(A, n, elt):
+    try:
+        Af = [Fraction(x.real if isinstance(x, complex) else x) for x in A]
+    except Exception:
+        return
+    if elt == 'cplx': return     # the complex pivot rule compares moduli: not re-enacted here
+    cnt, steps, fb = pivot_trace(Af, n)
+    P = PIVOT_STATS
+    P["systems"] += 1
+    P["exchanges_per_system"][str(cnt)] = P["exchanges_per_system"].get(str(cnt), 0) + 1
+    for k in steps: P["exchange_at_step"][str(k)] = P["exchange_at_step"].get(str(k), 0) + 1
+    if any(k >= 1 for k in steps): P["systems_with_exchange_after_step0"] += 1
+    if fb: P["zero_subcolumn_row0_fallback"] += 1
+    if not nonsingular(Af, n): P["singular_systems"] += 1
+
+def extra_coverage():
+    return {"pivot_distribution": PIVOT_STATS}
+
 def nonsingular(A, n):
     try:
         return det_exact([Fraction(x) for x in A], n) != 0
@@ -68,6 +124,7 @@ def to_elt(rng, A, elt, scale_rows=True):
 
 def mk(elt, n, A, b, family, nontrivial):
     M = (n, n, A)
+    record_pivots(A, n, elt)
     line = "mat.solve_both %s %s" % (tok_mat(elt, M), tok_vec(elt, b))
     term = ("fl_res (fun p : list _ * list _ => fl_list %s (fst p) ++ fl_list %s (snd p)) "
             "(let* x := @solve_basic %s %s %s in let* y := @solve_lu %s %s %s in Ok (x, y))") % (
@@ -76,7 +133,7 @@ def mk(elt, n, A, b, family, nontrivial):
 
 def generate(rng, tier):
     cases = []
-    N = 40 if tier == "quick" else 400
+    N = 80 if tier == "quick" else 400
     fams_r = ["dense", "zero-lead", "perm", "upper", "lower", "neg-dominant"]
     g = rng.fork("rat")
     for fam in fams_r:
